@@ -238,7 +238,8 @@ class Normalizer:
             # the caller exactly as it left the helper)
             if not rets or (len(rets) == 1 and rets[0] is body[-1]):
                 return "stmt"
-        if all(isinstance(b, (ast.Assign, ast.AugAssign, ast.Expr, ast.Return, ast.If, ast.For, ast.While)) for b in body):
+        if all(isinstance(b, (ast.Assign, ast.AugAssign, ast.Expr, ast.Return, ast.If, ast.For, ast.While, ast.Raise, ast.Try, ast.With)) for b in body):
+            # early returns in tail position of if-chains (a raise ends a path like a return does)
             if _tailify(body, "__probe") is not None:
                 return "stmt"
         if all(isinstance(b, (ast.Assign, ast.AugAssign, ast.Expr, ast.Return, ast.If, ast.For, ast.While, ast.Raise)) for b in body):
@@ -609,6 +610,121 @@ class Normalizer:
                 changed = True
                 break
 
+    # -------------------------------------------------------------- table-driven loops
+    def _module_literal(self, name):
+        """AST of a module-level ``name = <tuple/list display>`` bound exactly once and not pinned, else None."""
+        if name in _pinned_module(self.rel):
+            return None
+        hits = [n for n in self.tree.body if isinstance(n, ast.Assign) and len(n.targets) == 1 and isinstance(n.targets[0], ast.Name) and n.targets[0].id == name]
+        stores = sum(1 for n in ast.walk(self.tree) if isinstance(n, ast.Name) and n.id == name and isinstance(n.ctx, (ast.Store, ast.Del)))
+        if len(hits) == 1 and stores == 1 and isinstance(hits[0].value, (ast.Tuple, ast.List)):
+            return hits[0].value
+        return None
+
+    def _unroll_table_loops(self, func, pinned_locals):
+        """A *new* loop (its loop variables are not pinned locals of the function) over a literal table -- a tuple/list
+        display written in place, or a new module-level constant bound once to one -- is unrolled: one copy of the body
+        per row with the row's values substituted for the loop variables, ``getattr(x, "name")`` written ``x.name`` and
+        ``setattr(x, "name", v)`` written ``x.name = v``.  Temporaries of the body get one name per copy.  Loops with
+        ``break``/``continue``/``else`` or whose variables are read after the loop are left alone."""
+        norm = self
+
+        def const_like(e):
+            return all(isinstance(x, (ast.Constant, ast.Tuple, ast.List, ast.Attribute, ast.Name, ast.UnaryOp, ast.Load, ast.USub)) for x in ast.walk(e))
+
+        def rows_of(it):
+            e = it
+            if isinstance(e, ast.Name):
+                e = norm._module_literal(e.id)
+            if isinstance(e, (ast.Tuple, ast.List)) and 0 < len(e.elts) <= 24 and all(const_like(x) for x in e.elts):
+                return list(e.elts)
+            return None
+
+        class _Attr(ast.NodeTransformer):
+            def visit_Call(self, node):
+                self.generic_visit(node)
+                if isinstance(node.func, ast.Name) and node.func.id == "getattr" and len(node.args) == 2 and not node.keywords \
+                        and isinstance(node.args[1], ast.Constant) and isinstance(node.args[1].value, str) and node.args[1].value.isidentifier():
+                    return ast.copy_location(ast.Attribute(value=node.args[0], attr=node.args[1].value, ctx=ast.Load()), node)
+                return node
+
+            def visit_Expr(self, node):
+                self.generic_visit(node)
+                c = node.value
+                if isinstance(c, ast.Call) and isinstance(c.func, ast.Name) and c.func.id == "setattr" and len(c.args) == 3 and not c.keywords \
+                        and isinstance(c.args[1], ast.Constant) and isinstance(c.args[1].value, str) and c.args[1].value.isidentifier():
+                    return ast.copy_location(ast.Assign(targets=[ast.Attribute(value=c.args[0], attr=c.args[1].value, ctx=ast.Store())], value=c.args[2]), node)
+                return node
+
+        counter = [0]
+
+        def block(stmts):
+            out = []
+            for idx, st in enumerate(stmts):
+                for fld in ("body", "orelse", "finalbody"):
+                    blk = getattr(st, fld, None)
+                    if isinstance(blk, list) and blk and isinstance(blk[0], ast.stmt) and not isinstance(st, (ast.FunctionDef, ast.ClassDef)):
+                        setattr(st, fld, block(blk))
+                for h in getattr(st, "handlers", []) or []:
+                    h.body = block(h.body)
+                if not isinstance(st, ast.For) or st.orelse:
+                    out.append(st)
+                    continue
+                tnames = [n.id for n in ast.walk(st.target) if isinstance(n, ast.Name)]
+                rows = rows_of(st.iter)
+                if rows is None or not tnames or set(tnames) & pinned_locals:
+                    out.append(st)
+                    continue
+                if any(isinstance(n, (ast.Break, ast.Continue, ast.Return, ast.Yield, ast.YieldFrom)) for b in st.body for n in ast.walk(b)):
+                    out.append(st)
+                    continue
+                body_stores = {n.id for b in st.body for n in ast.walk(b) if isinstance(n, ast.Name) and isinstance(n.ctx, (ast.Store, ast.Del))}
+                if body_stores & set(tnames):
+                    out.append(st)
+                    continue
+                temps = body_stores - pinned_locals
+                # neither the loop variables nor the temporaries may be read after the loop (anywhere else in the function)
+                inside = {id(n) for b in st.body for n in ast.walk(b)} | {id(n) for n in ast.walk(st.target)}
+                outside_reads = {n.id for n in ast.walk(func) if isinstance(n, ast.Name) and id(n) not in inside and n.id in (set(tnames) | temps)}
+                if outside_reads:
+                    out.append(st)
+                    continue
+                ok = True
+                copies = []
+                for r in rows:
+                    mapping = {}
+                    if isinstance(st.target, ast.Name):
+                        mapping[st.target.id] = r
+                    elif isinstance(st.target, ast.Tuple) and isinstance(r, (ast.Tuple, ast.List)) and len(r.elts) == len(st.target.elts) \
+                            and all(isinstance(x, ast.Name) for x in st.target.elts):
+                        for x, y in zip(st.target.elts, r.elts):
+                            mapping[x.id] = y
+                    else:
+                        ok = False
+                        break
+                    counter[0] += 1
+                    ren = {t: f"{t}__u{counter[0]}" for t in temps}
+                    for b in st.body:
+                        nb = copy.deepcopy(b)
+                        for x in ast.walk(nb):
+                            if isinstance(x, ast.Name) and x.id in ren:
+                                x.id = ren[x.id]
+                        nb = _Subst(mapping).visit(nb)
+                        nb = _Attr().visit(nb)
+                        copies.append(nb)
+                if not ok:
+                    out.append(st)
+                    continue
+                for nb in copies:
+                    for x in ast.walk(nb):
+                        if not hasattr(x, "lineno"):
+                            ast.copy_location(x, st)
+                norm.report["helpers"].append(f"table loop at line {st.lineno} unrolled ({len(rows)} rows)")
+                out.extend(copies)
+            return out
+
+        func.body = block(func.body)
+
     # -------------------------------------------------------------- driver
     def run(self):
         tree = self.tree
@@ -625,6 +741,8 @@ class Normalizer:
                     break
                 pp = self.par.get(id(pp))
             self._fold_constants(n)
+            if n.name != "<lambda>" and _qual(n, self.par) in self.pinned_funcs:
+                self._unroll_table_loops(n, set(self.pinned_funcs.get(_qual(n, self.par), [])))
             if self.helpers:
                 taken = _local_names(n)
                 n.body = self._inline_stmt_calls(n.body, cls_name, taken)
